@@ -31,7 +31,8 @@ Definition HullOf (m : minfo) (run : list line) : Prop := run <> [] /\ chain (m_
 Lemma run_ok_hull gate m run : run_ok gate m run = true -> HullOf m run.
 Proof.
   unfold run_ok, HullOf. destruct run as [|f rest]; [discriminate|].
-  intro H. apply andb_prop in H. destruct H as (H12 & _). apply andb_prop in H12. destruct H12 as (H1 & _).
+  intro H. apply andb_prop in H. destruct H as (H123 & _). apply andb_prop in H123. destruct H123 as (H12 & _).
+  apply andb_prop in H12. destruct H12 as (H1 & _).
   split; [discriminate|]. now apply contiguous_chain.
 Qed.
 
